@@ -376,39 +376,172 @@ def rule_r1(repo, tier):
     return rr
 
 
+class BitBuf(Stream):
+    """A bitstring.BitArray with concrete content: slice assignment, overwrite / insert / append change a list of bits exactly as the
+    third-party class does (list semantics for plain slices; an overwrite that runs past the end extends the stream)."""
+
+    def __init__(self, interp, bits):
+        Stream.__init__(self, interp)
+        self.bits = list(bits)
+
+    def __repr__(self):
+        return 'BitBuf(%d bits)' % len(self.bits)
+
+    def get_attr(self, name, interp, frame):
+        if name in ('len', 'length'):
+            return len(self.bits)
+        return Stream.get_attr(self, name, interp, frame)
+
+    @staticmethod
+    def bits_of(v, interp, frame, node):
+        """bits of a bitstring.Bits(...) object or of an 'uint:n=v' token; values that do not fit are refused as bitstring refuses them"""
+        kind = length = val = None
+        if isinstance(v, Obj) and v.cls == 'Bits':
+            f = v.fields
+            if f.get('_args'):
+                raise AnalysisError('bitstring.Bits built from positional arguments %r: not modelled' % (f['_args'],))
+            length = f.get('length')
+            for k in ('uint', 'uintbe', 'int', 'intbe', 'bin', 'bytes', 'bool'):
+                if k in f:
+                    kind, val = k, f[k]
+                    break
+        elif isinstance(v, str) and parse(v) and parse(v)[2] is not None:
+            kind, length, txt = parse(v)
+            try:
+                val = int(txt)
+            except ValueError:
+                val = txt
+        if kind in ('uint', 'uintbe'):
+            if not isinstance(val, int) or isinstance(val, bool) or not isinstance(length, int):
+                raise AnalysisError('bitstring.Bits(%s=%r, length=%r): not concrete' % (kind, val, length))
+            if length <= 0 or (kind == 'uintbe' and length % 8) or val < 0 or val >= (1 << length):
+                interp.event('refused-by-bitstring', kind, val, length)
+                raise Raise('ValueError', node, interp.where(node, frame))
+            return [(val >> (length - 1 - i)) & 1 for i in range(length)]
+        if kind == 'bin' and isinstance(val, str) and set(val) <= set('01'):
+            return [int(c) for c in val]
+        if kind == 'bool':
+            return [1 if val else 0]
+        if kind == 'bytes' and isinstance(val, bytes):
+            return [(b >> (7 - i)) & 1 for b in val for i in range(8)]
+        raise AnalysisError('value %r handed to the bit stream: not modelled by the concrete stream' % (v,))
+
+    def store(self, idx, value, interp, frame, node):
+        bs = self.bits_of(value, interp, frame, node)
+        if isinstance(idx, tuple) and idx and idx[0] == 'slice':
+            a, b, st = idx[1], idx[2], idx[3]
+            if not all(x is None or (isinstance(x, int) and not isinstance(x, bool)) for x in (a, b, st)):
+                raise AnalysisError('slice bounds %r of a stream assignment are not concrete' % (idx[1:],))
+            if st not in (None, 1):
+                raise AnalysisError('extended slice assignment on the bit stream: not modelled')
+            self.bits[slice(a, b)] = bs
+        elif isinstance(idx, int) and not isinstance(idx, bool):
+            if len(bs) != 1:
+                raise AnalysisError('single-bit assignment with %d bits' % len(bs))
+            self.bits[idx] = bs[0]
+        else:
+            raise AnalysisError('stream index %r: not modelled' % (idx,))
+
+    def call_method(self, name, args, kwargs, interp, frame, node):
+        def position(k, default):
+            pos = kwargs.get('pos', args[k] if len(args) > k else default)
+            if not isinstance(pos, int) or isinstance(pos, bool):
+                raise AnalysisError('stream.%s at position %r: not concrete' % (name, pos))
+            if pos < 0:
+                pos += len(self.bits)
+            if pos < 0 or pos > len(self.bits):
+                raise Raise('ValueError', node, interp.where(node, frame))
+            return pos
+        if name == 'overwrite':
+            bs = self.bits_of(kwargs.get('bs', args[0] if args else None), interp, frame, node)
+            pos = position(1, None)
+            self.bits[pos:pos + len(bs)] = bs
+            return None
+        if name == 'insert':
+            bs = self.bits_of(kwargs.get('bs', args[0] if args else None), interp, frame, node)
+            pos = position(1, None)
+            self.bits[pos:pos] = bs
+            return None
+        if name == 'append':
+            self.bits.extend(self.bits_of(args[0], interp, frame, node))
+            return None
+        if name == 'prepend':
+            self.bits[0:0] = self.bits_of(args[0], interp, frame, node)
+            return None
+        raise AnalysisError('stream.%s(...) on the concrete bit stream: not modelled' % name)
+
+    def aug_assign(self, op, value, interp, frame, node):
+        if op is ast.Add:
+            self.bits.extend(self.bits_of(value, interp, frame, node))
+        else:
+            raise AnalysisError('stream %s= ...: not modelled by the concrete stream' % op.__name__)
+
+
+class BufInterp(BitInterp):
+    def on_store_subscript(self, base, idx, value, node, frame):
+        if isinstance(base, BitBuf):
+            base.store(idx, value, self, frame, node)
+            return True
+        return BitInterp.on_store_subscript(self, base, idx, value, node, frame)
+
+    def on_while(self, node, frame):
+        return self.unroll_while(node, frame, 80)
+
+
 def rule_r2(repo):
+    """set_uint folded on a bit stream with concrete content (a fixed pattern of 200 bits): afterwards the nbits bits at bitpos are the
+    value, MSB first, every other bit is what it was and the stream has the length it had; a value that does not fit is refused.  How
+    the replacement is spelled (slice assignment, overwrite, octet by octet) does not matter."""
     rr = RuleResult('C19.R2', 'set_uint replaces exactly nbits bits at the given position, widths 1..64')
     W = 'BitStringBitWriter'
+    fi = repo.method(W, 'set_uint')
+    L = 200
+    x = 0x9E3779B97F4A7C15
+    pattern = []
+    for i in range(L):
+        x = (x * 6364136223846793005 + 1442695040888963407) % (1 << 64)
+        pattern.append((x >> 40) & 1)
+    # the pattern must have ones in the leading octet of every field tried below (a patch that leaves stale high-order octets shows)
     for n in range(1, 65):
-        # (the last two values do not fit: they must reach bitstring unchanged, which refuses them -- never masked or clipped)
-        for pos, v in ((0, 2 ** n - 2 if n > 1 else 1), (3, 2 ** n - 1), (32, 0), (8, 2 ** n), (5, 2 ** n + 5)):
-            fi, res = call(repo, W, 'set_uint', [v, n, pos])
-            r, err = single(res, fi, 'set_uint(%d, %d, %d)' % (v, n, pos))
-            if err:
-                rr.fail('%s.set_uint' % W, fi.where, err)
+        # (the last two values do not fit: bitstring refuses them -- they may not be masked or clipped on the way)
+        for pos, v in ((0, 2 ** n - 2 if n > 1 else 1), (3, 2 ** n - 1), (32, 0), (8, 2 ** n), (5, 2 ** n + 5), (40, 1), (64, 2 ** (n // 2)), (L - n, 1 if n > 1 else 0)):
+            it = BufInterp(repo, W)
+            box = {}
+
+            def mk():
+                o = new_obj(it, W)
+                buf = BitBuf(it, pattern)
+                for k, fv in list(o.fields.items()):
+                    if isinstance(fv, Stream):
+                        o.fields[k] = buf
+                box['buf'] = buf
+                return {'self': o, 'value': v, 'nbits': n, 'bitpos': pos}
+            if fi.params[1:4] != ['value', 'nbits', 'bitpos']:
+                raise AnalysisError('set_uint%r: the rule binds (value, nbits, bitpos)' % (fi.params,))
+            res = it.run_function(fi, mk, self_class=W)
+            what = 'set_uint(%d, nbits=%d, bitpos=%d)' % (v, n, pos)
+            if len(res) != 1:
+                rr.fail('%s.set_uint' % W, fi.where, '%s: %d paths for concrete arguments (expected 1)' % (what, len(res)))
                 continue
-            sets = [e for e in r.events if e[0] == 'set']
-            writes = [e for e in r.events if e[0] in ('write', 'streamop', 'streamcall')]
-            ok = len(sets) == 1 and not writes
-            why = ''
-            if ok:
-                idx, bins = sets[0][1], sets[0][2]
-                ok = isinstance(idx, tuple) and idx[0] == 'slice' and idx[1] == pos and idx[2] == pos + n and idx[3] is None
-                if not ok:
-                    why = 'overwrites bit range %r' % (idx[1:],)
-                elif not (isinstance(bins, Obj) and bins.cls == 'Bits'):
-                    ok, why = False, 'replacement is %r' % (bins,)
-                else:
-                    f = bins.fields
-                    val = f.get('uint', f.get('uintbe'))
-                    kind = 'uint' if 'uint' in f else ('uintbe' if 'uintbe' in f else None)
-                    if f.get('length') != n or val != v or kind is None or not uint_kind_ok(kind, n):
-                        ok, why = False, 'replacement is Bits(%s=%r, length=%r)' % (kind, val, f.get('length'))
-            else:
-                why = '%d slice assignments, %d other stream operations' % (len(sets), len(writes))
-            if not ok:
-                rr.fail('%s.set_uint' % W, fi.where, 'set_uint(%d, nbits=%d, bitpos=%d): %s; expected stream[%d:%d] = %d-bit unsigned %d (so the total '
-                        'length cannot change)' % (v, n, pos, why, pos, pos + n, n, v), witness={'nbits': n, 'bitpos': pos})
+            r = res[0]
+            got = box['buf'].bits
+            fits = 0 <= v < (1 << n)
+            if not fits:
+                if r.ok:
+                    rr.fail('%s.set_uint:unfit' % W, fi.where, '%s on a stream of %d bits returns normally although the value does not fit %d bits (bits %d..%d are now %s): '
+                            'values that do not fit are refused, not masked or clipped' % (what, L, n, pos, pos + n, ''.join(map(str, got[pos:pos + n]))),
+                            witness={'nbits': n, 'bitpos': pos, 'value': v})
+                continue
+            want = pattern[:pos] + [(v >> (n - 1 - i)) & 1 for i in range(n)] + pattern[pos + n:]
+            if not r.ok:
+                rr.fail('%s.set_uint' % W, fi.where, '%s raises %s' % (what, r.exc.cls), witness={'nbits': n, 'bitpos': pos, 'value': v})
+            elif got != want:
+                diff = [i for i in range(min(len(got), len(want))) if got[i] != want[i]]
+                rr.fail('%s.set_uint' % W, fi.where, '%s on a stream of %d bits: %s; expected bits %d..%d = %d-bit unsigned %d, everything else and the total length '
+                        'unchanged' % (what, L, ('the stream is now %d bits long' % len(got)) if len(got) != len(want) else
+                                       'bits %s differ from the expected content (field now %s, expected %s)' % (
+                                           diff[:6], ''.join(map(str, got[pos:pos + n])), ''.join(map(str, want[pos:pos + n]))), pos, pos + n, n, v),
+                        witness={'nbits': n, 'bitpos': pos, 'value': v})
         rr.instance('set_uint width %d' % n)
     rr.require_floor(64)
     return rr
